@@ -123,6 +123,9 @@ DelUid(s, u) ==
 RECURSIVE DelUids(_, _)
 DelUids(s, us) == IF us = <<>> THEN s ELSE DelUids(DelUid(s, Head(us)), Tail(us))
 
+\* rank (from 0) of a live uid among the live uids in increasing order
+UidRank(s, u) == Cardinality({v \in Uids(s) : v < u})
+
 WriteCell(s, u, iech, v) ==
   IF u \notin Uids(s) \/ iech < 0 \/ iech >= s.nech THEN s
   ELSE [s EXCEPT !.cols[ColOf(s, u)].cells[iech + 1] = v]
@@ -203,6 +206,20 @@ Do(c, s) ==
     [] c.op = "setValueByColIdx" -> WriteCell(s, UidOfCol(s, c.col), c.iech, c.val)
     [] c.op = "setValue"        -> WriteCell(s, UidOfName(s, c.name), c.iech, c.val)
     [] c.op = "setLocVariable"  -> WriteCell(s, UidOfRole(s, c.t, c.r), c.iech, c.val)
+    \* row-wise and table-wise writers: values are handed over in the order of the LIVE UIDS (increasing uid),
+    \* whatever the column order and whatever uids were retired before
+    [] c.op = "setArrayBySample" ->
+         IF c.iech < 0 \/ c.iech >= s.nech THEN s
+         ELSE [s EXCEPT !.cols = [i \in DOMAIN s.cols |->
+                 [s.cols[i] EXCEPT !.cells[c.iech + 1] = c.val + UidRank(s, s.cols[i].uid)]]]
+    [] c.op = "setAllColumns" ->
+         [s EXCEPT !.cols = [i \in DOMAIN s.cols |->
+                 [s.cols[i] EXCEPT !.cells = [k \in 1..s.nech |-> c.val + 10 * UidRank(s, s.cols[i].uid) + k - 1]]]]
+    [] c.op = "updArray" ->            \* EOperator::ADD
+         IF c.uid \notin Uids(s) \/ c.iech < 0 \/ c.iech >= s.nech THEN s
+         ELSE [s EXCEPT !.cols[ColOf(s, c.uid)].cells[c.iech + 1] = @ + c.val]
+    [] c.op = "setColumnByColIdx" ->
+         IF c.col >= 0 /\ c.col < NCol(s) THEN [s EXCEPT !.cols[c.col + 1].cells = [k \in 1..s.nech |-> c.val + k - 1]] ELSE s
     [] c.op = "setColumnByUID"  ->
          IF c.uid \in Uids(s) THEN [s EXCEPT !.cols[ColOf(s, c.uid)].cells = [k \in 1..s.nech |-> c.val + k - 1]] ELSE s
     [] c.op = "duplicateColumnByUID" ->
@@ -352,6 +369,10 @@ Catalogue ==
   \cup {[op |-> "setValue", name |-> n, iech |-> i, val |-> 3] : n \in NameArgs, i \in IechArgs}
   \cup {[op |-> "setLocVariable", t |-> t, r |-> r, iech |-> i, val |-> 3] : t \in Types, r \in {0, 1}, i \in IechArgs}
   \cup {[op |-> "setColumnByUID", uid |-> u, val |-> 40] : u \in UidArgs}
+  \cup {[op |-> "setArrayBySample", iech |-> i, val |-> 70] : i \in IechArgs}
+  \cup {[op |-> "setAllColumns", val |-> 100]}
+  \cup {[op |-> "updArray", uid |-> u, iech |-> i, val |-> 5] : u \in UidArgs, i \in IechArgs}
+  \cup {[op |-> "setColumnByColIdx", col |-> k, val |-> 50] : k \in ColArgs}
   \cup {[op |-> "duplicateColumnByUID", uid |-> p[1], uid2 |-> p[2]] : p \in DPairs(UidArgs)}
   \cup {[op |-> "copyByUID", uid |-> p[1], uid2 |-> p[2]] : p \in DPairs(UidArgs)}
   \cup (IF "sel" \in Types THEN {[op |-> "addSelection", radix |-> x, k |-> k] : x \in RadixArgs, k \in {0, 1}} ELSE {})
@@ -370,6 +391,8 @@ WithinBounds(c, s) ==
     \* ("if the input array is empty, nothing is done": a Db without sample is left aside)
     [] c.op \in {"addSelection", "addColumns"} -> NCol(s) + 1 <= MaxCols /\ s.nuid + 1 <= MaxUid /\ s.nech >= 1
     [] c.op = "addSamples" -> s.nech + c.n <= MaxNech
+    \* (an increment is only applied to a small value: keeps the cell contents bounded)
+    [] c.op = "updArray" -> (c.uid \in Uids(s) /\ c.iech >= 0 /\ c.iech < s.nech) => s.cols[ColOf(s, c.uid)].cells[c.iech + 1] < 10
     [] OTHER -> TRUE
 
 EmptyDb(nech, grid) == [nech |-> nech, nuid |-> 0, cols |-> <<>>, loc |-> [t \in Types |-> <<>>], grid |-> grid]
